@@ -96,6 +96,14 @@ def normalize_integrate(log_measure, integrand, reduced_vars):
     frozenset,
 )
 def normalize_integrate_contraction(log_measure, integrand, reduced_vars):
+    if log_measure.reduced_vars:
+        # exp(logsumexp_p m_p) = sum_p exp(m_p): integrate under the measure's own binder
+        inner = Contraction(
+            ops.null, log_measure.bin_op, frozenset(), *log_measure.terms
+        )
+        return Integrate(inner, integrand, reduced_vars).reduce(
+            ops.add, log_measure.reduced_vars
+        )
     reduced_names = frozenset(v.name for v in reduced_vars)
     delta_terms = [
         t
